@@ -13,7 +13,7 @@ Lemma nth_repeat_same {T} (x : T) n k : nth k (repeat x n) x = x.
 Proof. revert k; induction n; intros [|k]; simpl; auto. Qed.
 
 Section Struct.
-Context {C V : Type} (o : kops C V) (A : V -> V) (rfix cfix : bool).
+Context {C V : Type} (o : kops C V) (A : V -> V) (rfix cfix afix : bool).
 
 Lemma mgs_len qs : forall j w h, length (snd (mgs o qs j w h)) = length h.
 Proof. induction qs as [|q t IH]; intros j w h; simpl; [reflexivity|]. rewrite IH. apply upd_length. Qed.
@@ -45,7 +45,7 @@ Proof. unfold ainit. constructor; cbn [aQ aH].
   - intros; lia.
 Qed.
 
-Lemma body_shape m tol idx s : idx < m -> Shape m idx s -> Shape m (S idx) (abody o A cfix m tol idx s).
+Lemma body_shape m tol idx s : idx < m -> Shape m idx s -> Shape m (S idx) (abody o A cfix afix m tol idx s).
 Proof. intros Hi [lQ lH lc Hp Qp Hh]. unfold abody.
   set (r := mgs o (firstn (idx + 1) (aQ s)) 0 (A (col o (aQ s) idx)) (repeat o.(c0) (m + 1))).
   set (nr := o.(vnrm) (fst r)). set (h2 := upd (snd r) (idx + 1) nr).
@@ -65,19 +65,19 @@ Proof. intros Hi [lQ lH lc Hp Qp Hh]. unfold abody.
     + rewrite nth_upd_neq by lia. apply Hh; lia.
 Qed.
 
-Lemma aloop_le fuel m tol cap : forall idx ss, idx <= cap -> fst (aloop o A rfix cfix fuel m tol cap idx ss) <= cap.
+Lemma aloop_le fuel m tol cap : forall idx ss, idx <= cap -> fst (aloop o A rfix cfix afix fuel m tol cap idx ss) <= cap.
 Proof. induction fuel as [|f IH]; intros idx ss Hi; simpl; [exact Hi|].
   destruct (acond o rfix tol cap idx ss) eqn:E; simpl; [|exact Hi]. apply IH.
   unfold acond in E. apply andb_prop in E as [E _]. apply Nat.ltb_lt in E. lia. Qed.
-Lemma aloop_ge fuel m tol cap : forall idx ss, idx <= fst (aloop o A rfix cfix fuel m tol cap idx ss).
+Lemma aloop_ge fuel m tol cap : forall idx ss, idx <= fst (aloop o A rfix cfix afix fuel m tol cap idx ss).
 Proof. induction fuel as [|f IH]; intros idx ss; simpl; [lia|].
-  destruct (acond o rfix tol cap idx ss); simpl; [|lia]. specialize (IH (S idx) (map (abody o A cfix m tol idx) ss)). lia. Qed.
-Lemma aloop_len fuel m tol cap : forall idx ss, length (snd (aloop o A rfix cfix fuel m tol cap idx ss)) = length ss.
+  destruct (acond o rfix tol cap idx ss); simpl; [|lia]. specialize (IH (S idx) (map (abody o A cfix afix m tol idx) ss)). lia. Qed.
+Lemma aloop_len fuel m tol cap : forall idx ss, length (snd (aloop o A rfix cfix afix fuel m tol cap idx ss)) = length ss.
 Proof. induction fuel as [|f IH]; intros idx ss; simpl; [reflexivity|].
   destruct (acond o rfix tol cap idx ss); simpl; [|reflexivity]. rewrite IH. apply map_length. Qed.
 
 Lemma aloop_shape fuel m tol cap : cap <= m -> forall idx ss, Forall (Shape m idx) ss ->
-  Forall (Shape m (fst (aloop o A rfix cfix fuel m tol cap idx ss))) (snd (aloop o A rfix cfix fuel m tol cap idx ss)).
+  Forall (Shape m (fst (aloop o A rfix cfix afix fuel m tol cap idx ss))) (snd (aloop o A rfix cfix afix fuel m tol cap idx ss)).
 Proof. intros Hc. induction fuel as [|f IH]; intros idx ss HS; simpl; [exact HS|].
   destruct (acond o rfix tol cap idx ss) eqn:E; simpl; [|exact HS]. apply IH.
   unfold acond in E. apply andb_prop in E as [E _]. apply Nat.ltb_lt in E.
@@ -85,14 +85,14 @@ Proof. intros Hc. induction fuel as [|f IH]; intros idx ss HS; simpl; [exact HS|
 
 (* the first column is never touched again *)
 Lemma aloop_col0 fuel m tol cap : forall idx ss,
-  map (fun s => col o (aQ s) 0) (snd (aloop o A rfix cfix fuel m tol cap idx ss)) = map (fun s => col o (aQ s) 0) ss.
+  map (fun s => col o (aQ s) 0) (snd (aloop o A rfix cfix afix fuel m tol cap idx ss)) = map (fun s => col o (aQ s) 0) ss.
 Proof. induction fuel as [|f IH]; intros idx ss; simpl; [reflexivity|].
   destruct (acond o rfix tol cap idx ss); simpl; [|reflexivity]. rewrite IH, map_map. apply map_ext.
   intros s. unfold abody; cbn [aQ]. unfold col. apply nth_upd_neq. lia. Qed.
 
 (* everything the property says about shapes, for any scalar type, any batch *)
 Theorem arnoldi_structure n vs max_iters tol :
-  let res := arnoldi_batch o A rfix cfix n vs max_iters tol in
+  let res := arnoldi_batch o A rfix cfix afix n vs max_iters tol in
   let k := fst res in
   k <= Nat.min max_iters n /\ length (snd res) = length vs /\
   map (fun s => col o (aQ s) 0) (snd res) = map (fun v => o.(vdiv) v (o.(vnrm) v)) vs /\
@@ -114,7 +114,7 @@ Proof.
   pose proof (aloop_shape cap max_iters tol cap ltac:(unfold cap; lia) 0 _ HS) as HF.
   rewrite Forall_forall in HF. destruct (HF s Hs) as [lQ lH lc Hp Qp Hh].
   repeat split; auto.
-  intros i j Hij. destruct (Nat.lt_ge_cases j (fst (aloop o A rfix cfix cap max_iters tol cap 0 (map (ainit o max_iters) vs)))).
+  intros i j Hij. destruct (Nat.lt_ge_cases j (fst (aloop o A rfix cfix afix cap max_iters tol cap 0 (map (ainit o max_iters) vs)))).
   - apply Hh; auto.
   - apply Hp; auto.
 Qed.
@@ -122,7 +122,7 @@ Qed.
 (* flag arnoldi_padding at the level of the model: for max_iters > n the square matrix H[:-1] that arnoldi_eigs hands to eig
    has a zero last column, i.e. e_{max_iters-1} is an eigenvector for the eigenvalue 0 - whatever the operator is *)
 Theorem arnoldi_eigs_zero_column n vs max_iters tol : n < max_iters ->
-  forall s, In s (snd (arnoldi_batch o A rfix cfix n vs max_iters tol)) -> forall i, eigs_matrix o s i (max_iters - 1) = o.(c0).
+  forall s, In s (snd (arnoldi_batch o A rfix cfix afix n vs max_iters tol)) -> forall i, eigs_matrix o s i (max_iters - 1) = o.(c0).
 Proof. intros Hn s Hs i. destruct (arnoldi_structure n vs max_iters tol) as (Hk & _ & _ & Hall).
   destruct (Hall s Hs) as (_ & _ & _ & _ & Hp & _). apply Hp. lia. Qed.
 End Struct.
@@ -137,7 +137,7 @@ Lemma upd_map {T U} (f : T -> U) (l : list T) k x : upd (map f l) k (f x) = map 
 Proof. revert k; induction l as [|h t IH]; intros [|k]; simpl; auto. rewrite IH. reflexivity. Qed.
 
 Section Padding.
-Context {C V : Type} (o : kops C V) (A : V -> V) (rfix cfix : bool).
+Context {C V : Type} (o : kops C V) (A : V -> V) (rfix cfix afix : bool).
 
 Lemma mgs_app qs z : forall j w h, j + length qs <= length h ->
   mgs o qs j w (h ++ z) = (fst (mgs o qs j w h), snd (mgs o qs j w h) ++ z).
@@ -156,7 +156,7 @@ Definition Padded (ss sb : @ast C V) : Prop :=
   anorm sb = anorm ss.
 
 Lemma body_padded tol idx ss sb : idx < cap -> Shape o cap idx ss -> Padded ss sb ->
-  Padded (abody o A cfix cap tol idx ss) (abody o A cfix (cap + d) tol idx sb).
+  Padded (abody o A cfix afix cap tol idx ss) (abody o A cfix afix (cap + d) tol idx sb).
 Proof. intros Hi [lQ lH lc _ _ _] (EQ & EH & EN). unfold abody.
   assert (Ecol : col o (aQ sb) idx = col o (aQ ss) idx) by (unfold col; rewrite EQ; apply app_nth1; lia).
   assert (Ef : firstn (idx + 1) (aQ sb) = firstn (idx + 1) (aQ ss)).
@@ -168,11 +168,29 @@ Proof. intros Hi [lQ lH lc _ _ _] (EQ & EH & EN). unfold abody.
   cbn [fst snd].
   set (r := mgs o (firstn (idx + 1) (aQ ss)) 0 (A (col o (aQ ss) idx)) (repeat o.(c0) (cap + 1))).
   assert (lr : length (snd r) = cap + 1) by (unfold r; rewrite mgs_len, repeat_length; reflexivity).
+  set (nr := o.(vnrm) (fst r)).
+  assert (EH' : upd (aH sb) idx (upd (snd r ++ repeat o.(c0) d) (idx + 1) nr)
+                = map padc (upd (aH ss) idx (upd (snd r) (idx + 1) nr)) ++ repeat (repeat o.(c0) (cap + d + 1)) d).
+  { rewrite EH. rewrite upd_app_l by (rewrite map_length; lia).
+    rewrite (upd_app_l (snd r)) by lia. fold (padc (upd (snd r) (idx + 1) nr)).
+    rewrite upd_map. reflexivity. }
+  rewrite EH'.
+  (* the threshold reads H[0,0] and H[1,0]: inside the unpadded part *)
+  set (Hs := upd (aH ss) idx (upd (snd r) (idx + 1) nr)).
+  assert (lHs : length Hs = cap) by (unfold Hs; rewrite upd_length; exact lH).
+  assert (lc0 : length (nth 0 Hs []) = cap + 1).
+  { unfold Hs. destruct (Nat.eq_dec idx 0) as [->|Hne].
+    - rewrite nth_upd_eq by lia. rewrite upd_length. exact lr.
+    - rewrite nth_upd_neq by lia. apply lc. lia. }
+  assert (Eh : forall i, i < cap + 1 -> Hent o (map padc Hs ++ repeat (repeat o.(c0) (cap + d + 1)) d) i 0 = Hent o Hs i 0).
+  { intros i Hi'. unfold Hent. rewrite app_nth1 by (rewrite map_length; lia).
+    rewrite (nth_indep _ [] (padc [])) by (rewrite map_length; lia). rewrite map_nth.
+    unfold padc, ent. apply app_nth1. lia. }
+  assert (Eth : athr o afix tol (map padc Hs ++ repeat (repeat o.(c0) (cap + d + 1)) d) = athr o afix tol Hs).
+  { unfold athr. rewrite !Eh by lia. reflexivity. }
+  rewrite Eth.
   repeat split; cbn [aQ aH anorm].
-  - rewrite EQ. apply upd_app_l. lia.
-  - rewrite EH. rewrite upd_app_l by (rewrite map_length; lia).
-    rewrite (upd_app_l (snd r)) by lia. fold (padc (upd (snd r) (idx + 1) (o.(vnrm) (fst r)))).
-    rewrite upd_map. reflexivity.
+  rewrite EQ. apply upd_app_l. lia.
 Qed.
 
 Lemma Hent_padded ss sb i j : Shape o cap 0 ss \/ True -> (forall j, j < cap -> length (nth j (aH ss) []) = cap + 1) -> length (aH ss) = cap ->
@@ -185,8 +203,8 @@ Proof. intros Hc [lQ lH lc _ _ _] P. pose proof P as (EQ & EH & EN). unfold a_la
   rewrite !(Hent_padded ss sb _ 0 (or_intror I) lc lH P) by lia. reflexivity. Qed.
 
 Lemma aloop_padded fuel tol : forall idx ss sb, Forall (Shape o cap idx) ss -> Forall2 Padded ss sb ->
-  fst (aloop o A rfix cfix fuel (cap + d) tol cap idx sb) = fst (aloop o A rfix cfix fuel cap tol cap idx ss) /\
-  Forall2 Padded (snd (aloop o A rfix cfix fuel cap tol cap idx ss)) (snd (aloop o A rfix cfix fuel (cap + d) tol cap idx sb)).
+  fst (aloop o A rfix cfix afix fuel (cap + d) tol cap idx sb) = fst (aloop o A rfix cfix afix fuel cap tol cap idx ss) /\
+  Forall2 Padded (snd (aloop o A rfix cfix afix fuel cap tol cap idx ss)) (snd (aloop o A rfix cfix afix fuel (cap + d) tol cap idx sb)).
 Proof. induction fuel as [|f IH]; intros idx ss sb HS HP; simpl; [auto|].
   assert (Ec : acond o rfix tol cap idx sb = acond o rfix tol cap idx ss).
   { unfold acond. destruct (Nat.ltb_spec idx cap) as [Hlt|]; [|reflexivity]. cbn [andb].
@@ -210,10 +228,10 @@ Qed.
 End Padding.
 
 (* asking for max_iters >= n steps gives the n-step factorisation, padded with zeros *)
-Theorem arnoldi_padding_lemma {C V} (o : kops C V) (A : V -> V) (rfix cfix : bool) n vs max_iters tol :
+Theorem arnoldi_padding_lemma {C V} (o : kops C V) (A : V -> V) (rfix cfix afix : bool) n vs max_iters tol :
   let cap := Nat.min max_iters n in
-  let small := arnoldi_batch o A rfix cfix n vs cap tol in
-  let big := arnoldi_batch o A rfix cfix n vs max_iters tol in
+  let small := arnoldi_batch o A rfix cfix afix n vs cap tol in
+  let big := arnoldi_batch o A rfix cfix afix n vs max_iters tol in
   fst big = fst small /\ Forall2 (Padded o cap (max_iters - cap)) (snd small) (snd big).
 Proof.
   cbv zeta. unfold arnoldi_batch. set (cap := Nat.min max_iters n).
@@ -227,33 +245,36 @@ Qed.
 
 (* the repaired variant returns exactly the leading part of what the pinned code returns, without the zero padding;
    its buffers have min(max_iters,n)+1 and min(max_iters,n) columns, so H[:-1] is the square matrix of the steps that can be taken *)
-Theorem arnoldi_capped_spec {C V} (o : kops C V) (A : V -> V) (rfix cfix : bool) n vs max_iters tol :
+Theorem arnoldi_capped_spec {C V} (o : kops C V) (A : V -> V) (rfix cfix afix : bool) n vs max_iters tol :
   let cap := Nat.min max_iters n in
-  let fixed := arnoldi_batch_capped o A rfix cfix n vs max_iters tol in
-  let pinned := arnoldi_batch o A rfix cfix n vs max_iters tol in
+  let fixed := arnoldi_batch_capped o A rfix cfix afix n vs max_iters tol in
+  let pinned := arnoldi_batch o A rfix cfix afix n vs max_iters tol in
   fst pinned = fst fixed /\ Forall2 (Padded o cap (max_iters - cap)) (snd fixed) (snd pinned) /\
   forall s, In s (snd fixed) -> length (aQ s) = cap + 1 /\ length (aH s) = cap /\
                                  (forall j, j < cap -> length (nth j (aH s) []) = cap + 1).
 Proof. cbv zeta. unfold arnoldi_batch_capped.
-  destruct (arnoldi_padding_lemma o A rfix cfix n vs max_iters tol) as [E P]. split; [exact E|]. split; [exact P|].
-  intros s Hs. destruct (arnoldi_structure o A rfix cfix n vs (Nat.min max_iters n) tol) as (_ & _ & _ & Hall).
+  destruct (arnoldi_padding_lemma o A rfix cfix afix n vs max_iters tol) as [E P]. split; [exact E|]. split; [exact P|].
+  intros s Hs. destruct (arnoldi_structure o A rfix cfix afix n vs (Nat.min max_iters n) tol) as (_ & _ & _ & Hall).
   destruct (Hall s Hs) as (lQ & lH & lc & _). auto. Qed.
 
 (* repaired normalisation (cfix = true; no law needed, holds on binary64): whenever a step's remainder norm does not exceed tol/2
    the next basis column is the zero vector - the "zero column afterwards" of the property *)
 Section ZeroAfter.
-Context {C V : Type} (o : kops C V) (A : V -> V) (rfix : bool).
+Context {C V : Type} (o : kops C V) (A : V -> V) (rfix afix : bool).
 Definition ZeroAfter (tol : C) (idx : nat) (s : @ast C V) : Prop :=
-  forall j, j < idx -> o.(cgtb) (Hent o (aH s) (S j) j) (o.(cdiv) tol (two o)) = false -> col o (aQ s) (S j) = o.(vzero).
-Lemma body_zero m tol idx s : idx < m -> Shape o m idx s -> ZeroAfter tol idx s -> ZeroAfter tol (S idx) (abody o A true m tol idx s).
-Proof. intros Hi [lQ lH lc _ _ _] Z j Hj Hc. unfold abody in *. cbn [aQ aH] in *. unfold Hent, col in *.
+  forall j, j < idx -> o.(cgtb) (Hent o (aH s) (S j) j) (athr o afix tol (aH s)) = false -> col o (aQ s) (S j) = o.(vzero).
+Lemma athr_upd tol (H : list (list C)) k h : k <> 0 -> athr o afix tol (upd H k h) = athr o afix tol H.
+Proof. intros Hk. unfold athr, Hent. rewrite nth_upd_neq by lia. reflexivity. Qed.
+Lemma body_zero m tol idx s : idx < m -> Shape o m idx s -> ZeroAfter tol idx s -> ZeroAfter tol (S idx) (abody o A true afix m tol idx s).
+Proof. intros Hi [lQ lH lc _ _ _] Z j Hj Hc. unfold abody in *. cbv zeta in *. cbn [aQ aH] in *.
   destruct (Nat.eq_dec j idx) as [->|Hne].
-  - rewrite nth_upd_eq in Hc by lia. unfold ent in Hc. replace (S idx) with (idx + 1) in * by lia.
+  - unfold Hent at 1 in Hc. rewrite nth_upd_eq in Hc by lia. unfold ent in Hc. replace (S idx) with (idx + 1) in * by lia.
     rewrite nth_upd_eq in Hc by (rewrite mgs_len, repeat_length; lia).
-    rewrite nth_upd_eq by lia. rewrite Hc. reflexivity.
-  - rewrite nth_upd_neq in Hc by lia. rewrite nth_upd_neq by lia. apply Z; [lia|exact Hc]. Qed.
+    unfold col in *. rewrite nth_upd_eq by lia. rewrite Hc. reflexivity.
+  - rewrite athr_upd in Hc by lia. unfold Hent at 1 in Hc. rewrite nth_upd_neq in Hc by lia.
+    unfold col. rewrite nth_upd_neq by lia. apply Z; [lia|exact Hc]. Qed.
 Lemma aloop_zero fuel m tol cap : cap <= m -> forall idx ss, Forall (fun s => Shape o m idx s /\ ZeroAfter tol idx s) ss ->
-  Forall (fun s => ZeroAfter tol (fst (aloop o A rfix true fuel m tol cap idx ss)) s) (snd (aloop o A rfix true fuel m tol cap idx ss)).
+  Forall (fun s => ZeroAfter tol (fst (aloop o A rfix true afix fuel m tol cap idx ss)) s) (snd (aloop o A rfix true afix fuel m tol cap idx ss)).
 Proof. intros Hc. induction fuel as [|f IH]; intros idx ss HS; simpl.
   - rewrite Forall_forall in *. intros x Hx. apply (HS x Hx).
   - destruct (acond o rfix tol cap idx ss) eqn:E; simpl.
@@ -262,9 +283,9 @@ Proof. intros Hc. induction fuel as [|f IH]; intros idx ss HS; simpl.
       split; [apply body_shape; [lia|exact Sh]|apply body_zero; [lia|exact Sh|exact Z]].
     + rewrite Forall_forall in *. intros x Hx. apply (HS x Hx). Qed.
 Theorem arnoldi_zero_after_breakdown n vs max_iters tol :
-  forall s, In s (snd (arnoldi_batch o A rfix true n vs max_iters tol)) ->
-  forall j, j < fst (arnoldi_batch o A rfix true n vs max_iters tol) ->
-  o.(cgtb) (Hent o (aH s) (S j) j) (o.(cdiv) tol (two o)) = false -> col o (aQ s) (S j) = o.(vzero).
+  forall s, In s (snd (arnoldi_batch o A rfix true afix n vs max_iters tol)) ->
+  forall j, j < fst (arnoldi_batch o A rfix true afix n vs max_iters tol) ->
+  o.(cgtb) (Hent o (aH s) (S j) j) (athr o afix tol (aH s)) = false -> col o (aQ s) (S j) = o.(vzero).
 Proof. intros s Hs. unfold arnoldi_batch in *. set (cap := Nat.min max_iters n) in *.
   assert (H0 : Forall (fun s => Shape o max_iters 0 s /\ ZeroAfter tol 0 s) (map (ainit o max_iters) vs)).
   { rewrite Forall_forall. intros x Hx. apply in_map_iff in Hx as (v & <- & _). split; [apply init_shape|intros j Hj; lia]. }
@@ -291,7 +312,7 @@ Record ilaws {C V : Type} (o : kops C V) (nonneg : C -> Prop) : Prop := mk_ilaws
   i_nrm_nonneg : forall v, nonneg (o.(vnrm) v) }.
 
 Section Alg.
-Context {C V : Type} (o : kops C V) (A : V -> V) (rfix cfix : bool) (nonneg : C -> Prop) (L : ilaws o nonneg).
+Context {C V : Type} (o : kops C V) (A : V -> V) (rfix cfix afix : bool) (nonneg : C -> Prop) (L : ilaws o nonneg).
 Declare Scope A_scope.
 Local Notation "0" := (o.(c0)) : A_scope. Local Notation "1" := (o.(c1)) : A_scope.
 Local Notation "x + y" := (o.(cadd) x y) : A_scope. Local Notation "x * y" := (o.(cmul) x y) : A_scope.
@@ -375,11 +396,12 @@ Qed.
 (* ---------- the loop invariant ---------- *)
 Variable tol : C.
 Definition half : C := tol / two o.
-(* step j was a regular step: remainder non-zero and the clipped normalisation inactive (pinned: norm >= tol/2; repaired
+(* (the threshold athr is tol/2, or tol/2 * ||H[:,0]|| for the relative variant afix)
+   step j was a regular step: remainder non-zero and the clipped normalisation inactive (pinned: norm >= tol/2; repaired
    normalisation: in addition norm > tol/2, otherwise the column is set to zero) *)
 Definition alive (k : nat) (s : @ast C V) : Prop :=
-  forall j, (j < k)%nat -> Hent o (aH s) (S j) j <> 0 /\ o.(cgtb) half (Hent o (aH s) (S j) j) = false /\
-                           (cfix = true -> o.(cgtb) (Hent o (aH s) (S j) j) half = true).
+  forall j, (j < k)%nat -> Hent o (aH s) (S j) j <> 0 /\ o.(cgtb) (athr o afix tol (aH s)) (Hent o (aH s) (S j) j) = false /\
+                           (cfix = true -> o.(cgtb) (Hent o (aH s) (S j) j) (athr o afix tol (aH s)) = true).
 Definition Good (k : nat) (s : @ast C V) : Prop :=
   (forall a b, (a <= k)%nat -> (b <= k)%nat -> dot (col o (aQ s) a) (col o (aQ s) b) = if a =? b then 1 else 0) /\
   (forall j, (j < k)%nat -> forall u,
@@ -398,11 +420,11 @@ Proof. intros Hv. constructor; [apply init_shape| |intros; lia].
     by (symmetry; apply nth_upd_eq; rewrite repeat_length; lia).
   apply i_unit_div. exact Hv. Qed.
 
-Lemma body_ainv m idx s : (idx < m)%nat -> AInv m idx s -> AInv m (S idx) (abody o A cfix m tol idx s).
+Lemma body_ainv m idx s : (idx < m)%nat -> AInv m idx s -> AInv m (S idx) (abody o A cfix afix m tol idx s).
 Proof.
   intros Hi [Sh Gd Sb]. pose proof Sh as [lQ lH lc _ _ _].
   (* the step, named *)
-  set (s' := abody o A cfix m tol idx s).
+  set (s' := abody o A cfix afix m tol idx s).
   set (qs := firstn (idx + 1) (aQ s)).
   set (new0 := A (col o (aQ s) idx)).
   set (r := mgs o qs 0 new0 (repeat o.(c0) (m + 1))).
@@ -417,7 +439,10 @@ Proof.
   { intros i. unfold s', abody, Hent; cbn [aH]. rewrite nth_upd_eq by lia. reflexivity. }
   assert (F3a : Hent o (aH s') (S idx) idx = nr). { rewrite F3. unfold ent. replace (S idx) with (idx + 1)%nat by lia. apply nth_upd_eq. lia. }
   assert (F3b : forall i, (i <= idx)%nat -> Hent o (aH s') i idx = ent o (snd r) i). { intros i Hi'. rewrite F3. unfold ent. apply nth_upd_neq. lia. }
-  assert (F4 : col o (aQ s') (S idx) = if cfix && negb (o.(cgtb) nr half) then o.(vzero) else o.(vdiv) (fst r) (clip_min o nr half)).
+  set (th := athr o afix tol (aH s')).
+  assert (Eth : (1 <= idx)%nat -> athr o afix tol (aH s') = athr o afix tol (aH s)).
+  { intros Hidx. unfold s', abody; cbn [aH]. unfold athr, Hent. rewrite nth_upd_neq by lia. reflexivity. }
+  assert (F4 : col o (aQ s') (S idx) = if cfix && negb (o.(cgtb) nr th) then o.(vzero) else o.(vdiv) (fst r) (clip_min o nr th)).
   { unfold s', abody, col; cbn [aQ]. replace (S idx) with (idx + 1)%nat by lia. apply nth_upd_eq. lia. }
   constructor; [apply body_shape; auto| |].
   2:{ intros j Hj. destruct (Nat.eq_dec j idx) as [->|Hne].
@@ -431,7 +456,7 @@ Proof.
         intros u. rewrite F1 by lia. rewrite (Hrel u). f_equal. apply csum_ext'. intros i Hi'. rewrite F2, F1 by lia. reflexivity. }
   intros k Hk Hal.
   assert (Hal_old : forall k', (k' <= idx)%nat -> alive k' s' -> alive k' s).
-  { intros k' Hk' Ha j Hj. rewrite <- !F2 by lia. apply Ha. exact Hj. }
+  { intros k' Hk' Ha j Hj. rewrite <- !F2 by lia. rewrite <- Eth by lia. apply Ha. exact Hj. }
   destruct (Nat.eq_dec k (S idx)) as [->|Hne].
   2:{ (* nothing the step writes is visible at level k <= idx *)
       destruct (Gd k ltac:(lia) (Hal_old k ltac:(lia) Hal)) as [On Rel]. split.
@@ -439,8 +464,8 @@ Proof.
       - intros j Hj u. rewrite F1 by lia. rewrite (Rel j Hj u). apply csum_ext'. intros i Hi'. rewrite F2, F1 by lia. reflexivity. }
   (* level idx+1: the new column *)
   destruct (Gd idx ltac:(lia) (Hal_old idx ltac:(lia) (fun j Hj => Hal j ltac:(lia)))) as [On Rel].
-  destruct (Hal idx ltac:(lia)) as (Hnz & Hclip & Hc). rewrite F3a in Hnz, Hclip, Hc.
-  assert (Eclip : clip_min o nr half = nr) by (unfold clip_min; rewrite Hclip; reflexivity).
+  destruct (Hal idx ltac:(lia)) as (Hnz & Hclip & Hc). rewrite F3a in Hnz, Hclip, Hc. fold th in Hclip, Hc.
+  assert (Eclip : clip_min o nr th = nr) by (unfold clip_min; rewrite Hclip; reflexivity).
   rewrite Eclip in F4.
   assert (F4' : col o (aQ s') (S idx) = o.(vdiv) (fst r) nr).
   { rewrite F4. destruct cfix; [rewrite (Hc eq_refl)|]; reflexivity. }
@@ -475,7 +500,7 @@ Proof.
 Qed.
 
 Lemma aloop_ainv fuel m cap : (cap <= m)%nat -> forall idx ss, Forall (AInv m idx) ss ->
-  Forall (AInv m (fst (aloop o A rfix cfix fuel m tol cap idx ss))) (snd (aloop o A rfix cfix fuel m tol cap idx ss)).
+  Forall (AInv m (fst (aloop o A rfix cfix afix fuel m tol cap idx ss))) (snd (aloop o A rfix cfix afix fuel m tol cap idx ss)).
 Proof. intros Hc. induction fuel as [|f IH]; intros idx ss HS; simpl; [exact HS|].
   destruct (acond o rfix tol cap idx ss) eqn:E; simpl; [|exact HS]. apply IH.
   unfold acond in E. apply andb_prop in E as [E _]. apply Nat.ltb_lt in E.
@@ -486,8 +511,8 @@ Proof. intros Hc. induction fuel as [|f IH]; intros idx ss HS; simpl; [exact HS|
    columns 0..k-1 with the recorded H (by construction); for EVERY step j taken, regular or not,
    A q_j = sum_{i<=j} H[i,j] q_i + x_j  with the sub-diagonal entry H[j+1,j] = ||x_j|| (the remainder of the inner loop) *)
 Theorem arnoldi_run n vs max_iters : Forall (fun v => nrm v <> 0) vs ->
-  forall s, In s (snd (arnoldi_batch o A rfix cfix n vs max_iters tol)) ->
-  let steps := fst (arnoldi_batch o A rfix cfix n vs max_iters tol) in
+  forall s, In s (snd (arnoldi_batch o A rfix cfix afix n vs max_iters tol)) ->
+  let steps := fst (arnoldi_batch o A rfix cfix afix n vs max_iters tol) in
   (forall k, (k <= steps)%nat -> alive k s -> Good k s) /\
   (forall j, (j < steps)%nat -> exists x, Hent o (aH s) (S j) j = nrm x /\
      forall u, dot u (A (col o (aQ s) j)) = csum o (S j) (fun i => Hent o (aH s) i j * dot u (col o (aQ s) i)) + dot u x).
@@ -498,22 +523,22 @@ Proof. intros Hv s Hs. unfold arnoldi_batch in *. set (cap := Nat.min max_iters 
   rewrite Forall_forall in HF. destruct (HF s Hs) as [_ Gd Sb]. split; auto. Qed.
 End Alg.
 
-Theorem arnoldi_subdiag_nonneg {C V} (o : kops C V) (A : V -> V) (rfix cfix : bool) (nonneg : C -> Prop) : ilaws o nonneg ->
+Theorem arnoldi_subdiag_nonneg {C V} (o : kops C V) (A : V -> V) (rfix cfix afix : bool) (nonneg : C -> Prop) : ilaws o nonneg ->
   forall (tol : C) (n : nat) (vs : list V) (max_iters : nat), Forall (fun v => o.(vnrm) v <> o.(c0)) vs ->
-  forall s, In s (snd (arnoldi_batch o A rfix cfix n vs max_iters tol)) ->
-  forall j, j < fst (arnoldi_batch o A rfix cfix n vs max_iters tol) -> nonneg (Hent o (aH s) (S j) j).
+  forall s, In s (snd (arnoldi_batch o A rfix cfix afix n vs max_iters tol)) ->
+  forall j, j < fst (arnoldi_batch o A rfix cfix afix n vs max_iters tol) -> nonneg (Hent o (aH s) (S j) j).
 Proof. intros L tol n vs mi Hv s Hs j Hj.
-  destruct (proj2 (arnoldi_run o A rfix cfix nonneg L tol n vs mi Hv s Hs) j Hj) as (x & -> & _). exact (i_nrm_nonneg _ _ L x). Qed.
+  destruct (proj2 (arnoldi_run o A rfix cfix afix nonneg L tol n vs mi Hv s Hs) j Hj) as (x & -> & _). exact (i_nrm_nonneg _ _ L x). Qed.
 
 (* breakdown: if step j was taken and its remainder vanished (H[j+1,j] = 0) then A q_j lies in span(q_0..q_j); together with the
    relation for the regular steps before it, span(q_0..q_j) is A-invariant *)
-Theorem arnoldi_breakdown_invariant {C V} (o : kops C V) (A : V -> V) (rfix cfix : bool) (nonneg : C -> Prop) : ilaws o nonneg ->
+Theorem arnoldi_breakdown_invariant {C V} (o : kops C V) (A : V -> V) (rfix cfix afix : bool) (nonneg : C -> Prop) : ilaws o nonneg ->
   forall (tol : C) (n : nat) (vs : list V) (max_iters : nat), Forall (fun v => o.(vnrm) v <> o.(c0)) vs ->
-  forall s, In s (snd (arnoldi_batch o A rfix cfix n vs max_iters tol)) ->
-  forall j, j < fst (arnoldi_batch o A rfix cfix n vs max_iters tol) -> Hent o (aH s) (S j) j = o.(c0) ->
+  forall s, In s (snd (arnoldi_batch o A rfix cfix afix n vs max_iters tol)) ->
+  forall j, j < fst (arnoldi_batch o A rfix cfix afix n vs max_iters tol) -> Hent o (aH s) (S j) j = o.(c0) ->
   forall u, o.(vdot) u (A (col o (aQ s) j)) = csum o (S j) (fun i => o.(cmul) (Hent o (aH s) i j) (o.(vdot) u (col o (aQ s) i))).
 Proof. intros L tol n vs mi Hv s Hs j Hj Hz u.
-  destruct (proj2 (arnoldi_run o A rfix cfix nonneg L tol n vs mi Hv s Hs) j Hj) as (x & Hx & Hrel).
+  destruct (proj2 (arnoldi_run o A rfix cfix afix nonneg L tol n vs mi Hv s Hs) j Hj) as (x & Hx & Hrel).
   rewrite (Hrel u). rewrite Hz in Hx. rewrite (i_nrm_zero _ _ L x (eq_sym Hx) u).
   pose proof (i_field _ _ L) as F. destruct F as [R _ _ _]. destruct R as [R0 Rc Ra _ _ _ _ _ _].
   rewrite Rc. apply R0. Qed.
@@ -597,18 +622,18 @@ Definition is_eig_A {C V} (o : kops C V) (A : V -> V) (theta : C) : Prop :=
   exists x, (exists u, o.(vdot) u x <> o.(c0)) /\ forall u, o.(vdot) u (A x) = o.(cmul) theta (o.(vdot) u x).
 Definition is_eig_block {C V} (o : kops C V) (s : @ast C V) (k : nat) (theta : C) : Prop :=
   exists y, (exists a, a < k /\ y a <> o.(c0)) /\ forall a, a < k -> csum o k (fun j => o.(cmul) (Hent o (aH s) a j) (y j)) = o.(cmul) theta (y a).
-Definition C15_statement (rfix cfix : bool) : Prop :=
+Definition C15_statement (rfix cfix afix : bool) : Prop :=
   forall (C V : Type) (o : kops C V) (A : V -> V) (nonneg : C -> Prop), ilaws o nonneg ->
   forall (tol : C) (n : nat) (vs : list V) (max_iters : nat), Forall (fun v => o.(vnrm) v <> o.(c0)) vs ->
-  forall s, In s (snd (arnoldi_batch o A rfix cfix n vs max_iters tol)) ->
-  let steps := fst (arnoldi_batch o A rfix cfix n vs max_iters tol) in
+  forall s, In s (snd (arnoldi_batch o A rfix cfix afix n vs max_iters tol)) ->
+  let steps := fst (arnoldi_batch o A rfix cfix afix n vs max_iters tol) in
   (* regular steps: orthonormal columns and the relation; sub-diagonal entries are norms *)
-  ((forall k, k <= steps -> alive o cfix tol k s -> Good o A k s) /\
+  ((forall k, k <= steps -> alive o cfix afix tol k s -> Good o A k s) /\
    (forall j, j < steps -> nonneg (Hent o (aH s) (S j) j))) /\
   (* after a breakdown at step j: zero column *)
   (forall j, j < steps -> Hent o (aH s) (S j) j = o.(c0) -> forall u, o.(vdot) u (col o (aQ s) (S j)) = o.(c0)) /\
   (* with at least n steps the eigenvalues handed back are exactly those of A: they are the eigenvalues of the leading
      steps x steps block, not of the zero-padded max_iters x max_iters matrix *)
-  (n <= max_iters -> alive o cfix tol (steps - 1) s -> forall theta, is_eig_block o s steps theta <-> is_eig_A o A theta).
+  (n <= max_iters -> alive o cfix afix tol (steps - 1) s -> forall theta, is_eig_block o s steps theta <-> is_eig_A o A theta).
 (* the pinned code; the repaired variants are C15_statement true true (see arnoldi_zero_after_breakdown for the zero-column clause) *)
-Definition C15_full : Prop := C15_statement false false.
+Definition C15_full : Prop := C15_statement false false false.
